@@ -1012,17 +1012,38 @@ static uint64_t cascade_count(int thorough) { (void) thorough; return 0; }
 static void cascade_run(uint64_t idx, vh_rng_t * rng) { (void) idx; (void) rng; }
 #endif
 
+/* ---- C11: a DEEP error queue. "Bit 2 iff the queue is non-empty" for every fill level the int16_t size allows - 255, 256, 257, 512 entries are
+ * fill levels like any other (a count that passes through a narrow type shows at the multiples of 256) ------------------------------------- */
+static uint64_t deep_count(int thorough) { (void) thorough; return MON11 ? 4 : 0; }
+static void deep_run(uint64_t idx, vh_rng_t * rng) {
+    int qcap = (idx & 1) ? 600 : 300, i, n = qcap - 20; obs_t o; vh_ctx_t * v = (g_no_error_cb = (idx >= 2), g_srq_handler_acts = 0, new_ctx(qcap)); scpi_t * c = v->ctx;
+    (void) rng;
+    vh_case_desc("error queue of %d entries filled to %d one by one and read back one by one", qcap, n);
+    SCPI_RegSet(c, SCPI_REG_SRE, 0x04);
+    for (i = 0; i < 2 * n; i++) {
+        unsigned bad;
+        if (i < n) SCPI_ErrorPush(c, (int16_t) (-100 - (i % 50))); else { scpi_error_t e; if (i & 1) SCPI_ErrorPop(c, &e); else vh_input(v, "SYST:ERR?\n", 10); }
+        observe(c, &o); bad = incoherent(&o);
+        vh_eval(1);
+        if (bad) { vh_violation(bad & CL_QMA ? "C11:error-available-wrong-in-a-deep-queue" : "C11:mss-wrong-in-a-deep-queue", "queue of %d entries, %s no. %d: %d errors queued, status byte 0x%04x, SRE 0x%04x", qcap, i < n ? "push" : "read", i < n ? i + 1 : i - n + 1, (int) o.count, o.r[SCPI_REG_STB], o.r[SCPI_REG_SRE]); break; }
+        if (o.count == 256 || o.count == 512) vh_count("deep.queue_holding_a_multiple_of_256_errors", 1);
+    }
+    vh_count("deep.histories", 1);
+    vh_ctx_free(v);
+}
+
 int main(int argc, char ** argv) {
     static const vh_phase_t phases[] = {
         { "sweep", sweep_count, sweep_run }, /* C12 only; first, so that the shortest witnesses are reported */
         { "bfs", bfs_count, bfs_run },
         { "walk", walk_count, walk_run },
         { "cascade", cascade_count, cascade_run },
+        { "deep queue", deep_count, deep_run },
     };
     vh_require("bfs.states"); vh_require("contexts.without_error_callback"); vh_require("contexts.with_error_callback");
     vh_require("walk.steps");
 #if MON11
-    vh_require("c11.after_states_with_bit5_set");
+    vh_require("c11.after_states_with_bit5_set"); vh_require("deep.queue_holding_a_multiple_of_256_errors");
     vh_require("c11.after_states_with_bit7_set");
     vh_require("c11.after_states_with_bit3_set");
     vh_require("c11.after_states_with_bit2_set");
@@ -1050,5 +1071,5 @@ int main(int argc, char ** argv) {
     vh_require("cascade.third_level_condition_write_changed_the_status_byte");
 #endif
 #endif
-    return vh_main(argc, argv, PROP, phases, 4);
+    return vh_main(argc, argv, PROP, phases, 5);
 }
